@@ -154,6 +154,6 @@ pub fn def() -> PropertyDef {
         level: "exploration",
         rule: "exhaustive: N in {4,8,16,32} (thorough 64), three schemes: every coefficient index for extract+assemble (alternating input representation), every trace parameter 0..log N, every pack count 1..N; random: N=4..64 (thorough 1024), random indices, counts, term selections, seeded-then-expanded automorphism keys, plain moduli of every kind. Oracle on decrypted coefficient vectors (BFV/BGV exact modulo t; CKKS exact integers round(v*scale) recovered by own CRT, within the worst-case noise): assemble(extract(ct,i)) has constant coefficient m_i; trace(l) keeps coefficient j times N/2^l iff N/2^l divides j; pack(k) holds value j at index j*N/2^ceil(log2 k) and zero elsewhere. non-trivial: index >= N/2 or non-default representation / 0 < l < log N / count not a power of two or count in {1, N}.",
         assumptions: vec!["noise model DESIGN.md §4 with generous multipliers for the merge and trace rounds"],
-        subs: vec![Sub::enumerate("all_indices_counts_depths", exhaustive, oracle), Sub::prop("random_lwe", 20_000, 300_000, 0.4, lwe_case, oracle)],
+        subs: vec![Sub::enumerate("all_indices_counts_depths", exhaustive, oracle), Sub::prop("random_lwe", 150_000, 600_000, 0.4, lwe_case, oracle)],
     }
 }
